@@ -142,6 +142,41 @@ def gen_callbacks(rng, prob):
     return cbs
 
 
+def gen_disagree(rng, quick):
+    """2-3 detector callbacks on disjoint volumes of the mock problem (inner, middle, outer,
+    world all mapped) whose nonzero_energy_deposition flags DISAGREE; gamma primaries and
+    stopped/vacuum steps give zero-deposit steps in every volume, so the collector must deliver
+    them (the filter applies only if ALL callbacks ask for it)."""
+    vols = [1, 2, 3, 4]
+    rng.shuffle(vols)
+    n = rng.range(2, 3)
+    cuts = sorted({rng.range(1, 3) for _ in range(n - 1)})
+    parts, a = [], 0
+    for c in cuts + [4]:
+        if c > a:
+            parts.append(sorted(vols[a:c]))
+            a = c
+    if len(parts) < 2:
+        parts = [sorted(vols[:2]), sorted(vols[2:])]
+    flags = [rng.below(2) for _ in parts]
+    if len(set(flags)) == 1:
+        flags[rng.below(len(flags))] ^= 1
+    cbs, d = [], 0
+    for vs, f in zip(parts, flags):
+        dm = []
+        for v in vs:
+            dm.append((v, d))
+            d += 1
+        cbs.append("%s:%x:%s:%d" % (rng.choice(["raw", "raw", "det"]), gen_selmask(rng) | 0x10000,
+                                    fmt_detmap(dm), f))
+    slots = rng.choice([2, 4, 6, 8])
+    return ("run prob=mock slots=%d prims=%d seed=%d events=%d streams=%d order=%s maxsteps=%d "
+            "warm=%d adiag=%d sdiag=%d cbs=%s" % (
+                slots, rng.range(slots, 2 * slots), rng.below(1 << 30), rng.choice([1, 2]),
+                rng.choice([1, 1, 2]), rng.choice(ORDERS), 12 if quick else 40, rng.below(2),
+                rng.below(2), rng.choice([0, 3]), ";".join(cbs)))
+
+
 def gen_scenario(rng, quick):
     prob = rng.choice(["mock", "mock", "simple"])
     slots = rng.choice([1, 2, 3, 4, 6, 8, rng.range(1, 12)])
@@ -224,7 +259,10 @@ def point_expect(rd):
             "v": "x" if rd["out"] == "1" else rd["vol"], "e": rd["energy"]}
 
 
-ORACLE_STATS = {"delivered_slots": 0, "filtered_active_slots": 0}
+ORACLE_STATS = {"delivered_slots": 0, "filtered_active_slots": 0,
+                "disagreeing_flag_scenarios": 0,
+                "zero_deposit_steps_due_under_disagreeing_flags": 0,
+                "zero_deposit_steps_in_volume_of_flag_false_callback": 0}
 
 
 def oracle(line, I, O):
@@ -237,18 +275,38 @@ def oracle(line, I, O):
     pk = parse_kv(O[0].split())
     sel = int(pk["sel"], 16)
     det_tbl = parse_ids(pk["det"])
-    nz = pk["nz"] == "1"
-    # union semantics of the declared filters
+    nz_reported = pk["nz"] == "1"
+    # what the collector must do follows from the DECLARED per-callback filters alone
+    # (StepInterface.hh: detectors = union of the maps; zero-deposit steps are dropped only if
+    # ALL callbacks ask for it) — nothing below trusts the parameters the code reports
     want_sel = 0
     for s in specs:
         want_sel |= s["sel"]
     if sel != want_sel:
         bad.append((0, "selection-union", f"gathered selection {sel:#x} is not the union {want_sel:#x}"))
+    want_det = {}
+    for s in specs:
+        want_det.update(s["dets"])
+    has_det = bool(want_det)
+    nz = has_det and all(s["nz"] for s in specs)
+    disagree = has_det and len({s["nz"] for s in specs}) > 1
+    owner = {}
+    for j, s in enumerate(specs):
+        for v in s["dets"]:
+            owner[v] = j
+    if has_det != (det_tbl is not None):
+        bad.append((0, "detector-map", "detectors declared but no detector table (or vice versa)"))
     if det_tbl is not None:
-        for s in specs:
-            for v, d in s["dets"].items():
-                if det_tbl[v] != d:
-                    bad.append((0, "detector-map", f"volume {v} maps to {det_tbl[v]}, declared {d}"))
+        for v in range(len(det_tbl)):
+            if det_tbl[v] != want_det.get(v):
+                bad.append((0, "detector-map", f"volume {v} maps to {det_tbl[v]}, declared "
+                            f"{want_det.get(v)}"))
+    if has_det and nz_reported != nz:
+        bad.append((0, "nonzero-filter-merge",
+                    f"collector-wide nonzero_energy_deposition is {nz_reported} but the callbacks "
+                    f"declared {[s['nz'] for s in specs]}: it must be on only if ALL ask for it"))
+    if disagree:
+        ORACLE_STATS["disagreeing_flag_scenarios"] += 1
     ck = parse_kv(I[1].split()) if len(I) > 1 else {}
     nact, nptc = int(ck.get("nact", 0)), int(ck.get("nptc", 0))
     sbins = int(ck.get("sbins", 0))
@@ -277,13 +335,17 @@ def oracle(line, I, O):
         for i in range(n):
             q, r = post[i], pre[i]
             ok = q is not None
-            if ok and det_tbl is not None:
-                ok = (r is not None and r["vol"] != "x" and int(r["vol"], 16) < len(det_tbl)
-                      and det_tbl[int(r["vol"], 16)] is not None
-                      and not (nz and f64(q["edep"]) == 0.0))
+            zero = ok and f64(q["edep"]) == 0.0
+            if ok and has_det:
+                ok = (r is not None and r["vol"] != "x" and int(r["vol"], 16) in want_det
+                      and not (nz and zero))
             expect.append(ok)
             if ok:
                 ORACLE_STATS["delivered_slots"] += 1
+                if disagree and zero:
+                    ORACLE_STATS["zero_deposit_steps_due_under_disagreeing_flags"] += 1
+                    if not specs[owner[int(r["vol"], 16)]]["nz"]:
+                        ORACLE_STATS["zero_deposit_steps_in_volume_of_flag_false_callback"] += 1
             elif q is not None:
                 ORACLE_STATS["filtered_active_slots"] += 1
         views = [v.strip() for v in O[k].split(" | ")[1:]]
@@ -297,8 +359,8 @@ def oracle(line, I, O):
                 # tallies: left fold of the delivered deposits per detector, in slot order
                 tl = calo[j][stream]
                 for i in range(n):
-                    if expect[i] and det_tbl is not None:
-                        d = det_tbl[int(pre[i]["vol"], 16)]
+                    if expect[i] and has_det:
+                        d = want_det[int(pre[i]["vol"], 16)]
                         if d < len(tl):
                             tl[d] = tl[d] + f64(post[i]["edep"])
                 tot = [0.0] * s["n"]
@@ -322,8 +384,21 @@ def oracle(line, I, O):
                 for i in range(n):
                     got = tid[i] is not None and (det is None or det[i] is not None)
                     if got != expect[i]:
-                        bad.append((k, "delivered-iff", f"callback {j} slot {i}: delivered={got} "
-                                    f"expected {expect[i]}"))
+                        key, extra = "delivered-iff", ""
+                        if has_det and post[i] is not None and f64(post[i]["edep"]) == 0.0 \
+                                and pre[i] is not None and int(pre[i]["vol"], 16) in want_det:
+                            v_ = int(pre[i]["vol"], 16)
+                            o_ = owner[v_]
+                            if expect[i]:
+                                key = "zero-deposit-step-not-delivered"
+                                extra = (f": callback {o_} with nonzero_energy_deposition="
+                                         f"{specs[o_]['nz']} did not receive a zero-deposit step "
+                                         f"in its detector volume {v_} (flags {[x['nz'] for x in specs]})")
+                            else:
+                                key = "zero-deposit-step-delivered-despite-filter"
+                                extra = f": all callbacks asked for the non-zero filter (volume {v_})"
+                        bad.append((k, key, f"callback {j} slot {i}: delivered={got} "
+                                    f"expected {expect[i]}" + extra))
                     if not got:
                         continue
                     q, r = post[i], pre[i]
@@ -352,7 +427,17 @@ def oracle(line, I, O):
             else:   # compacted view
                 idx = [i for i in range(n) if expect[i]]
                 if int(kv["n"]) != len(idx):
-                    bad.append((k, "compaction-size", f"callback {j}: {kv['n']} != {len(idx)}"))
+                    zmiss = [i for i in idx if f64(post[i]["edep"]) == 0.0]
+                    if disagree and int(kv["n"]) < len(idx) and zmiss:
+                        v_ = int(pre[zmiss[0]]["vol"], 16)
+                        bad.append((k, "zero-deposit-step-not-delivered",
+                                    f"compacting callback {j} received {kv['n']} of {len(idx)} due "
+                                    f"steps; {len(zmiss)} of them are zero-deposit steps, e.g. slot "
+                                    f"{zmiss[0]} in detector volume {v_} of callback {owner[v_]} "
+                                    f"(nonzero_energy_deposition={specs[owner[v_]]['nz']}; flags "
+                                    f"{[x['nz'] for x in specs]})"))
+                    else:
+                        bad.append((k, "compaction-size", f"callback {j}: {kv['n']} != {len(idx)}"))
                     continue
                 if idx:
                     tids = parse_ids(kv["tid"])
@@ -364,7 +449,7 @@ def oracle(line, I, O):
                         if ed != [post[i]["edep"] for i in idx]:
                             bad.append((k, "compaction-edep", f"callback {j}"))
                     dets = parse_ids(kv["det"])
-                    if dets != [det_tbl[int(pre[i]["vol"], 16)] for i in idx]:
+                    if dets != [want_det[int(pre[i]["vol"], 16)] for i in idx]:
                         bad.append((k, "compaction-detector", f"callback {j}"))
         # diagnostics: counted steps
         for i in range(n):
@@ -506,6 +591,9 @@ def run(ctx):
     n_gen = 60 if quick else 400
     for _ in range(n_gen):
         scenarios.append(gen_scenario(ctx.rng, quick))
+    n_dis = 8 if quick else 40
+    for _ in range(n_dis):
+        scenarios.append(gen_disagree(ctx.rng, quick))
 
     with ThreadPoolExecutor(max_workers=8) as ex:
         results = list(ex.map(lambda l: run_harness(exe, l), scenarios))
@@ -554,6 +642,8 @@ def run(ctx):
     if diverged:
         broken.append(f"correspondence: model and implementation differ on {len(diverged)} scenarios")
 
+    # within a key, report first the instance the statement is most directly about
+    oracle_fail.sort(key=lambda f: 0 if "nonzero_energy_deposition=False did not receive" in f[3] else 1)
     seen = set()
     for line, k, key, msg in oracle_fail:
         if key in seen:
